@@ -4,5 +4,5 @@
 sid=$1; prop=${2:-$(echo $sid | cut -d- -f1)}; tier=${3:-quick}
 t=$(mktemp -d /tmp/tryseed_XXXX); o=$(mktemp -d /tmp/tryout_XXXX)
 cp -r /repo/src $t/src && (cd $t && git apply /verif/seeded/$sid/patch.diff) || exit 9
-cd /verif && VERIF_REPO=$t PYVC_OUT=$o python3-vt -m pyvc check $prop --tier $tier 2>&1 | grep -v "^OK" | grep "VIOLATION\|UNDECIDED\|CHECKER\|KNOWN\|^\[C" | cut -c1-260 | head -${LINES_MAX:-12}
+cd ${VERIF_HOME:-/verif} && VERIF_REPO=$t PYVC_OUT=$o python3-vt -m pyvc check $prop --tier $tier 2>&1 | grep -v "^OK" | grep "VIOLATION\|UNDECIDED\|CHECKER\|KNOWN\|^\[C" | cut -c1-260 | head -${LINES_MAX:-12}
 if [ -n "$KEEP" ]; then echo "out=$o tree=$t"; else rm -rf $t $o; fi
